@@ -23,6 +23,8 @@ Block make_block(Kind k, int n) {
   return b;
 }
 
+static Mat block_gen(const Block& b, int i);
+
 Group::Group(const std::vector<Block>& b) : blocks(b) {
   offN.assign(1, 0); offDoF.assign(1, 0); offRep.assign(1, 0); offDim.assign(1, 0);
   for (size_t i = 0; i < b.size(); ++i) {
@@ -38,6 +40,21 @@ Group::Group(const std::vector<Block>& b) : blocks(b) {
     for (size_t i = 0; i < b.size(); ++i) name += (i ? "," : "") + b[i].name;
     name += ">";
   }
+  // caches
+  for (int i = 0; i < DoF; ++i) {
+    size_t bb = 0;
+    while (i >= offDoF[bb + 1]) ++bb;
+    Mat G = Mat::Zero(N, N);
+    G.block(offN[bb], offN[bb], blocks[bb].N, blocks[bb].N) = block_gen(blocks[bb], i - offDoF[bb]);
+    gens_.push_back(G);
+    gnorm2_.push_back((G.array() * G.array()).sum());
+  }
+  for (int i = 0; i < DoF; ++i) {
+    Mat a(DoF, DoF);
+    for (int j = 0; j < DoF; ++j) a.col(j) = vee(gens_[i] * gens_[j] - gens_[j] * gens_[i]);
+    adbasis_.push_back(a);
+  }
+  rotmask_t_ = rot_tangent_mask();
 }
 
 // ---------------------------------------------------------------------------------------------
@@ -83,43 +100,33 @@ static Mat block_gen(const Block& b, int i) {
 
 Mat Group::gen(int i) const {
   if (i < 0 || i >= DoF) throw std::out_of_range("ref::gen index");
-  size_t b = 0;
-  while (i >= offDoF[b + 1]) ++b;
-  Mat G = Mat::Zero(N, N);
-  G.block(offN[b], offN[b], blocks[b].N, blocks[b].N) = block_gen(blocks[b], i - offDoF[b]);
-  return G;
+  return gens_[i];
 }
 
 Mat Group::hat(const Vec& t) const {
   Mat A = Mat::Zero(N, N);
-  for (int i = 0; i < DoF; ++i) A += t(i) * gen(i);
+  for (int i = 0; i < DoF; ++i) if (t(i) != 0) A += t(i) * gens_[i];
   return A;
 }
 
 Vec Group::vee(const Mat& A, Real* resid) const {
-  Vec t(DoF);
-  for (int i = 0; i < DoF; ++i) {
-    Mat G = gen(i);
-    t(i) = (G.array() * A.array()).sum() / (G.array() * G.array()).sum();
-  }
+  Vec t((int)gens_.size());
+  for (int i = 0; i < (int)gens_.size(); ++i) t(i) = (gens_[i].array() * A.array()).sum() / gnorm2_[i];
   if (resid) *resid = (A - hat(t)).cwiseAbs().maxCoeff();
   return t;
 }
 
 Mat Group::ad(const Vec& t) const {
-  Mat H = hat(t);
-  Mat a(DoF, DoF);
-  for (int j = 0; j < DoF; ++j) {
-    Mat G = gen(j);
-    a.col(j) = vee(H * G - G * H);
-  }
+  // ad is linear in t: ad(t) = sum t_i ad(e_i), with ad(e_i) computed once from the commutators of the generators
+  Mat a = Mat::Zero(DoF, DoF);
+  for (int i = 0; i < DoF; ++i) if (t(i) != 0) a += t(i) * adbasis_[i];
   return a;
 }
 
 Mat Group::innerW() const {
   Mat W(DoF, DoF);
   for (int i = 0; i < DoF; ++i)
-    for (int j = 0; j < DoF; ++j) W(i, j) = (gen(i).transpose() * gen(j)).trace();
+    for (int j = 0; j < DoF; ++j) W(i, j) = (gens_[i].transpose() * gens_[j]).trace();
   return W;
 }
 
@@ -292,7 +299,7 @@ Mat Group::inv(const Mat& M) const {
 Mat Group::Adj(const Mat& M) const {
   Mat Mi = inv(M);
   Mat A(DoF, DoF);
-  for (int j = 0; j < DoF; ++j) A.col(j) = vee(M * gen(j) * Mi);
+  for (int j = 0; j < DoF; ++j) A.col(j) = vee(M * gens_[j] * Mi);
   return A;
 }
 
@@ -387,7 +394,7 @@ Real Group::lin_scale_M(const Mat& M) const {
 }
 
 Real Group::lin_scale_t(const Vec& t) const {
-  std::vector<char> m = rot_tangent_mask();
+  const std::vector<char>& m = rotmask_t_;
   Real s = 1;
   for (int i = 0; i < DoF; ++i) if (!m[i]) { Real a = std::fabs(t(i)); if (a > s) s = a; }
   return s;
@@ -421,7 +428,7 @@ Real Group::diffM(const Mat& A, const Mat& B, Real lin) const {
 }
 
 Real Group::difft(const Vec& a, const Vec& b, Real lin) const {
-  std::vector<char> mk = rot_tangent_mask();
+  const std::vector<char>& mk = rotmask_t_;
   Real m = 0;
   for (int i = 0; i < DoF; ++i) {
     if (bad(a(i)) || bad(b(i))) return std::numeric_limits<Real>::infinity();
@@ -433,7 +440,7 @@ Real Group::difft(const Vec& a, const Vec& b, Real lin) const {
 }
 
 Real Group::diffJ(const Mat& A, const Mat& B, Real lin) const {
-  std::vector<char> mk = rot_tangent_mask();
+  const std::vector<char>& mk = rotmask_t_;
   Real m = 0, nb = 1;
   for (int r = 0; r < DoF; ++r)
     for (int c = 0; c < DoF; ++c) {
